@@ -103,4 +103,10 @@ example : (({} : LS).run restartLate).openL = [(2, false)] ∧ (({} : LS).run re
 theorem C15_source_lifecycle :
     lifecycleFactsOK = true := source_lifecycle_matches_transition_system
 
+/-- **The source is the one the model was written from** (regenerated on every run): the lifecycle functions (`Start`, `Stop`, `Restart`, `open`, `close`, `serve`, `tlsServe`, `startConn`) of the current source
+have the fingerprints recorded in the model; a change to any of them means the theorems above are not shown for the code
+as it is now, until the model has been compared with it again -/
+theorem C15_source_lifecycle_is_the_modelled_one :
+    lifecycleModelled.all (fun e => Generated.serverFingerprints.contains (e.1, e.2.1)) = true := source_lifecycle_is_the_modelled_one
+
 end GoRedis
